@@ -58,6 +58,13 @@ func VerifC15Bytes() {
 		// peer supplied headers go through the real ProcessHeader (difficulty checks on)
 		e.node.headers = realHeaders()
 	}
+	if cmdName == wire.CmdHeaders && nondetBool("with-header-handler") {
+		// an additional header handler (as the node manager installs) reads the same message through
+		// a waiting buffer, in a thread of its own
+		e.node.SetHeaderHandler(func(ctx contextT, h *wire.MessageHeader, r readerT) error {
+			return DiscardInput(r, h.Length)
+		})
+	}
 	switch stage {
 	case 1:
 		e.node.handshakeIsComplete.Store(true)
